@@ -24,6 +24,7 @@ use std::time::Duration;
 use tower::{Layer, Service, ServiceExt};
 
 const LAYER_REAL: &[&str] = &["anemo-tower layer under test (real code)", "tokio semaphore / dashmap / governor", "tower"];
+const LAYER_REAL_VCLOCK: &[&str] = &["anemo-tower rate-limit layer under test (real code)", "governor 0.6.3 (real GCRA, keyed state store and MonotonicClock; source unchanged, quanta feature off)", "tower", "tokio timers"];
 const LAYER_STUB: &[&str] = &["wrapped service (harness: gauge, log, PRNG duration and outcome)", "callers (harness tasks with PRNG arrival and cancellation instants)", "clock (tokio paused clock)"];
 
 pub static C18_DIRECT: Scenario = Scenario {
@@ -56,7 +57,18 @@ pub static C19_DIRECT: Scenario = Scenario {
     thorough_runs: 1_000_000,
     rule: "one run = one real RateLimitLayer with a quota whose replenishment period (1 hour per cell) exceeds the run's wall time by six orders of magnitude (frozen-clock regime), burst 1-8, 1-4 peers, both wait modes, 5-80 concurrent arrivals through clones in PRNG order; distinct = distinct order signature; non-trivial = at least one request over quota",
     real: LAYER_REAL,
-    stubbed: &["wrapped service and callers (harness)", "scheduler (single-threaded tokio, seeded arrival order); the limiter's own clock is REAL (governor QuantaClock, futures-timer) and only the frozen-clock regime is explored"],
+    stubbed: &["wrapped service and callers (harness)", "scheduler (seeded order of runnable tasks)", "clock: governor's MonotonicClock on simulated time, futures-timer replaced by a Delay on the simulated tokio clock (vendored, DESIGN.md 13.7); this scenario keeps the frozen regime (one cell per hour), c19-ratelimit-virtual-clock explores replenishment"],
+};
+
+pub static C19_VIRTUAL: Scenario = Scenario {
+    id: "C19",
+    name: "c19-ratelimit-virtual-clock",
+    run: run_c19_virtual,
+    quick_runs: 20_000,
+    thorough_runs: 1_000_000,
+    rule: "one run = one real RateLimitLayer (governor's GCRA on its MonotonicClock, which follows simulated time; waits on simulated timers) with burst 1-8 and a replenishment period of 2 ms - 2 s per cell, 1-4 peers, 5-120 requests arriving at PRNG instants over up to 40 periods through clones and through several services made by the same layer, both wait modes, cancellation of waiting requests in some Block runs; oracle = the window bound of the statement over every pair of admissions of a peer, an exact GCRA reference model for every ReturnError decision and hint, and for Block the greedy per-peer schedule (k-th admission neither earlier than possible nor later than possible + 3 ms, whatever other peers do); distinct = distinct order signature (per-peer admission pattern); non-trivial = at least one request over quota",
+    real: LAYER_REAL_VCLOCK,
+    stubbed: &["wrapped service and callers (harness)", "scheduler (seeded order of runnable tasks)", "clock: governor reads std::time::Instant through its own MonotonicClock (vendored manifest: quanta feature off), which the simulator's clock seam answers with simulated time", "futures-timer (governor's wait) replaced by a Delay on the simulated tokio clock"],
 };
 
 pub static C20_DIRECT: Scenario = Scenario {
@@ -564,6 +576,271 @@ fn run_c19(input: RunInput) -> ScenFuture {
         }
         w.event(format!("{key} peers={n_peers} per_peer={per_peer:?}"));
         w.sample("run", json!({"burst": burst, "block": block, "per_peer_requests": per_peer}));
+        w.finish()
+    })
+}
+
+/// Token bucket replay of one peer's *actual* admission instants: capacity `cap_cells` cells,
+/// `start_cells` at the first admission, one cell back every `period` (continuously), one cell
+/// per admission. Conformance to "burst plus replenishment over every window" is exactly "the
+/// level never goes negative" with capacity = burst. Units: ns of replenishment.
+struct BucketReplay {
+    cap: i128,
+    period: i128,
+    level: i128,
+    last: Option<u64>,
+    start: i128,
+}
+
+impl BucketReplay {
+    fn new(period_ns: u64, cap_cells: u64, start_cells: u64) -> Self {
+        Self { cap: cap_cells as i128 * period_ns as i128, period: period_ns as i128, level: 0, last: None, start: start_cells as i128 * period_ns as i128 }
+    }
+    /// level (in ns of replenishment; one cell = `period`) at `now`, before any admission at `now`
+    fn level_at(&self, now: u64) -> i128 {
+        match self.last {
+            None => self.start,
+            Some(l) => (self.level + (now - l) as i128).min(self.cap),
+        }
+    }
+    /// account one admission at `now`; false if there was less than one cell
+    fn admit(&mut self, now: u64) -> bool {
+        let l = self.level_at(now);
+        self.level = l - self.period;
+        self.last = Some(now);
+        l >= self.period
+    }
+}
+
+/// Greedy first-come-first-served schedule of a bucket with `burst` cells (the most restrictive
+/// reading of the quota): admission instants for the given arrival instants.
+fn strict_fifo_schedule(arrivals: &[u64], period_ns: u64, burst: u64) -> Vec<u64> {
+    let mut b = BucketReplay::new(period_ns, burst, burst);
+    let mut out = Vec::new();
+    let mut t_prev = 0u64;
+    for a in arrivals {
+        let mut t = (*a).max(t_prev);
+        let l = b.level_at(t);
+        if l < b.period {
+            t += (b.period - l) as u64;
+        }
+        b.admit(t);
+        out.push(t);
+        t_prev = t;
+    }
+    out
+}
+
+fn run_c19_virtual(input: RunInput) -> ScenFuture {
+    Box::pin(async move {
+        use anemo_tower::rate_limit::{RateLimitLayer, WaitMode as RWait, WAIT_NANOS_HEADER};
+        let w = World::new(&input, LinkCfg::clean(100, 100));
+        let burst = w.param("burst", 1, 8) as u64;
+        let block = w.flag("block_mode", 0.5);
+        let n_peers = w.param("peers", 1, 4) as usize;
+        let n_req = w.param("requests", 5, 120) as u64;
+        let period_ms = [2u64, 5, 10, 25, 100, 250, 1000, 2000][w.param("period_class", 0, 7) as usize];
+        let span_periods = w.param("span_periods", 1, 40) as u64;
+        let cancel = block && w.flag("cancel_waiters", 0.3);
+        let period = Duration::from_millis(period_ms);
+        let t_ns = period_ms * 1_000_000;
+        // start at an odd instant so that nothing depends on the limiter being created at time 0
+        sleep_ms(w.param("start_offset_ms", 0, 50) as u64).await;
+        let quota = governor::Quota::with_period(period).unwrap().allow_burst(std::num::NonZeroU32::new(burst as u32).unwrap());
+        let mode = if block { RWait::Block } else { RWait::ReturnError };
+        let inner = GaugeSvc { st: Default::default(), fabric: w.fabric.clone() };
+        let layer = RateLimitLayer::new(quota, mode);
+        // several services made by one layer share its limiter; clones of a service do too
+        let services = [layer.layer(inner.clone()), layer.layer(inner.clone())];
+        // the same limiter configuration a second time, seeing only peer 0's requests (at the very
+        // same instants): quotas are per peer, so peer 0 must fare identically in both
+        let inner_solo = GaugeSvc { st: Default::default(), fabric: w.fabric.clone() };
+        let solo = RateLimitLayer::new(quota, mode).layer(inner_solo.clone());
+        let peers: Vec<PeerId> = (0..n_peers).map(|i| PeerId([i as u8 + 1; 32])).collect();
+        let mut r = w.rng("wl:c19v");
+        // arrivals: clustered bursts and isolated requests over the span
+        let span_ms = (span_periods * period_ms).max(1);
+        struct Arrival {
+            id: u64,
+            peer: usize,
+            at_ms: u64,
+            cancel_after_ms: Option<u64>,
+        }
+        let mut arrivals: Vec<Arrival> = Vec::new();
+        let mut cluster_at = 0u64;
+        for id in 0..n_req {
+            if id == 0 || r.gen_bool(0.35) {
+                cluster_at = r.gen_range(0..=span_ms);
+            }
+            let at_ms = if r.gen_bool(0.7) { cluster_at + r.gen_range(0..3) } else { r.gen_range(0..=span_ms) };
+            let cancel_after_ms = (cancel && r.gen_bool(0.25)).then(|| r.gen_range(0..=3 * period_ms));
+            arrivals.push(Arrival { id, peer: r.gen_range(0..n_peers), at_ms, cancel_after_ms });
+        }
+        type Outcome = Option<Result<(), (StatusCode, Option<String>)>>;
+        // (id, peer, arrival ns, outcome, outcome ns, cancelled)
+        type Rec = (u64, usize, u64, Outcome, u64, bool);
+        let results: Arc<Mutex<Vec<Rec>>> = Default::default();
+        let results_solo: Arc<Mutex<Vec<Rec>>> = Default::default();
+        let mut tasks = Vec::new();
+        for a in &arrivals {
+            for is_solo in [false, true] {
+                if is_solo && (a.peer != 0 || cancel) {
+                    continue;
+                }
+                let (id, peer, at_ms, cancel_after) = (a.id, a.peer, a.at_ms, a.cancel_after_ms);
+                let (pid, w2) = (peers[a.peer], w.clone());
+                let results = if is_solo { results_solo.clone() } else { results.clone() };
+                let idx = {
+                    let mut g = results.lock().unwrap();
+                    g.push((id, peer, 0, None, 0, false));
+                    g.len() - 1
+                };
+                let req = Request::new(Bytes::new()).with_extension(pid).with_header("id", id.to_string()).with_header("dur-ms", "1");
+                let call = if is_solo { solo.clone().oneshot(req) } else { services[(a.id % 2) as usize].clone().oneshot(req) };
+                tasks.push(tokio::spawn(async move {
+                    sleep_ms(at_ms).await;
+                    results.lock().unwrap()[idx].2 = w2.now_ns();
+                    let res = match cancel_after {
+                        Some(ms) => tokio::time::timeout(Duration::from_millis(ms), call).await.ok(),
+                        None => Some(call.await),
+                    };
+                    let mut g = results.lock().unwrap();
+                    g[idx].4 = w2.now_ns();
+                    match res {
+                        Some(r) => g[idx].3 = Some(r.map(|_| ()).map_err(|s| (s.status(), s.headers().get(WAIT_NANOS_HEADER).cloned()))),
+                        None => g[idx].5 = true,
+                    }
+                }));
+            }
+        }
+        // everything that can be admitted has been after: span + (requests of one peer + 2) periods
+        sleep_ms(span_ms + 3 + (n_req + 5) * period_ms + 20).await;
+        let key = format!("burst={burst} period_ms={period_ms} mode={}", if block { "block" } else { "return-error" });
+        let results = results.lock().unwrap().clone();
+        let log = inner.st.lock().unwrap().log.clone();
+        let mut over = false;
+        let mut sig = Vec::new();
+        // (the known finding is reported last, so that it cannot mask anything else in the run)
+        let mut extra_cell: Option<String> = None;
+        for (pi, p) in peers.iter().enumerate() {
+            let mut adm: Vec<u64> = log.iter().filter(|e| e.3 == Some(*p)).map(|e| e.1).collect();
+            adm.sort();
+            // (1) "never more than burst plus the replenishment over the window", every window:
+            // replay of the actual admissions against a bucket of `burst` cells
+            let mut strict = BucketReplay::new(t_ns, burst, burst);
+            let mut extra = BucketReplay::new(t_ns, burst + 1, burst);
+            let mut first_strict: Option<(usize, u64)> = None;
+            let mut first_extra: Option<(usize, u64)> = None;
+            for (k, t) in adm.iter().enumerate() {
+                if !strict.admit(*t) && first_strict.is_none() {
+                    first_strict = Some((k, *t));
+                }
+                if !extra.admit(*t) && first_extra.is_none() {
+                    first_extra = Some((k, *t));
+                }
+            }
+            if let Some((k, t)) = first_extra {
+                w.violate("quota-exceeded-in-a-window", key.clone(), format!("peer {pi}: admission {k} at {} us came when less than one cell was available even in a bucket of burst+1 = {} cells (admissions so far, us: {:?})", t / 1000, burst + 1, adm[..=k].iter().rev().take(12).rev().map(|x| x / 1000).collect::<Vec<_>>()));
+            } else if let Some((k, t)) = first_strict {
+                // the pinned governor 0.6.3 lets a bucket that has been full keep one cell more
+                // than the burst (known finding F-D)
+                extra_cell.get_or_insert(format!("peer {pi}: admission {k} at {} us exceeds burst {burst} + replenishment (1 cell / {period_ms} ms) over the window since the bucket was last full by one cell (last admissions, us: {:?})", t / 1000, adm[..=k].iter().rev().take(12).rev().map(|x| x / 1000).collect::<Vec<_>>()));
+            }
+            let mut mine: Vec<&Rec> = results.iter().filter(|x| x.1 == pi).collect();
+            mine.sort_by_key(|x| (x.2, x.0));
+            if mine.len() as u64 > burst {
+                over = true;
+            }
+            if block {
+                let refused = mine.iter().filter(|x| matches!(&x.3, Some(Err(_)))).count();
+                w.check(refused == 0, "block-mode-refused", key.clone(), || format!("{refused} requests refused in Block mode"));
+                let any_cancelled = mine.iter().any(|x| x.5);
+                // a request that was not cancelled is admitted in the end
+                for x in &mine {
+                    if !x.5 && x.3.is_none() {
+                        w.violate("waiting-request-never-admitted", key.clone(), format!("peer {pi}: request {} arrived at {} us and is still waiting {} periods after the last arrival", x.0, x.2 / 1000, n_req + 5));
+                    }
+                }
+                if !any_cancelled {
+                    // (2) nobody waits longer than the quota requires: the k-th admission comes no
+                    // later than in the first-come-first-served schedule of the most restrictive
+                    // reading of the quota, plus one period (an implementation may account cells
+                    // on a grid) and 3 ms of timer granularity - whatever other peers are doing
+                    let arr: Vec<u64> = mine.iter().map(|x| x.2).collect();
+                    let ideal = strict_fifo_schedule(&arr, t_ns, burst);
+                    for (k, want) in ideal.iter().enumerate() {
+                        match adm.get(k) {
+                            Some(got) if *got > *want + t_ns + 3_000_000 => {
+                                w.violate("over-quota-request-delayed-beyond-its-quota", key.clone(), format!("peer {pi}: admission {k} at {} us although the peer's own quota permits it at {} us ({} requests of {n_peers} peers in the run)", got / 1000, want / 1000, results.len()));
+                                break;
+                            }
+                            None => {
+                                w.violate("waiting-request-never-admitted", key.clone(), format!("peer {pi}: {} admissions, {} requests", adm.len(), ideal.len()));
+                                break;
+                            }
+                            _ => {}
+                        }
+                    }
+                } else {
+                    w.probe("block-run-with-cancelled-waiters");
+                }
+            } else {
+                // (3) every refusal is justified (given what was admitted so far there was less
+                // than one cell even under the most restrictive reading), immediate, carries a
+                // positive hint that is not longer than two periods, and never reaches the service
+                let mut strict = BucketReplay::new(t_ns, burst, burst);
+                let mut ai = 0usize;
+                for x in &mine {
+                    match &x.3 {
+                        None => w.violate("request-never-completes", key.clone(), format!("request {} pending in ReturnError mode", x.0)),
+                        Some(Ok(())) => {}
+                        Some(Err((status, h))) => {
+                            // account the admissions up to this instant (those of the same instant
+                            // included: admissions first, then refusals)
+                            while ai < adm.len() && adm[ai] <= x.2 {
+                                strict.admit(adm[ai]);
+                                ai += 1;
+                            }
+                            let level = strict.level_at(x.2);
+                            w.check(level < t_ns as i128, "request-within-quota-refused", key.clone(), || format!("peer {pi}: request {} refused at {} us although {} cells were available (burst {burst}, admissions so far {ai})", x.0, x.2 / 1000, level as f64 / t_ns as f64));
+                            let n = h.as_ref().and_then(|h| h.parse::<u64>().ok());
+                            w.check(*status == StatusCode::TooManyRequests && n.map(|n| n > 0 && n <= 2 * t_ns).unwrap_or(false), "refusal-without-valid-wait-hint", key.clone(), || format!("refusal with status {status:?} and wait-nanos {h:?} (one cell per {t_ns} ns)"));
+                            w.check(!log.iter().any(|e| e.0 == x.0), "refused-request-reached-service", key.clone(), || format!("request {} refused but reached the service", x.0));
+                            w.check(x.4 == x.2, "refusal-not-immediate", key.clone(), || format!("request {} was refused {} us after it arrived", x.0, (x.4 - x.2) / 1000));
+                        }
+                    }
+                }
+            }
+            sig.push(format!("{}:{}", mine.len(), adm.len()));
+        }
+        // (4) per-peer quotas: peer 0 fares exactly as it does alone
+        if !cancel && !w.violated() {
+            let log_solo = inner_solo.st.lock().unwrap().log.clone();
+            let mut a: Vec<u64> = log.iter().filter(|e| e.3 == Some(peers[0])).map(|e| e.1).collect();
+            let mut b: Vec<u64> = log_solo.iter().map(|e| e.1).collect();
+            a.sort();
+            b.sort();
+            if a != b {
+                let k = a.iter().zip(b.iter()).position(|(x, y)| x != y).unwrap_or(a.len().min(b.len()));
+                w.violate("quota-depends-on-other-peers", key.clone(), format!("peer 0 sent the same requests at the same instants to two limiters with the same quota; next to {} other peers it got {} admissions, alone {}; first difference at admission {k}: {:?} us vs {:?} us", n_peers - 1, a.len(), b.len(), a.get(k).map(|x| x / 1000), b.get(k).map(|x| x / 1000)));
+            }
+            w.probe("per-peer-independence-compared");
+        }
+        for t in tasks {
+            t.abort();
+        }
+        if over {
+            w.mark_overlap();
+            w.probe("request-over-quota");
+        }
+        if let Some(msg) = extra_cell {
+            w.probe("extra-cell-of-a-full-bucket-used");
+            if !w.violated() {
+                w.violate("quota-exceeded-by-the-extra-cell-of-a-full-bucket", "bucket-holds-burst+1-cells-once-it-has-been-full", msg);
+            }
+        }
+        w.event(format!("{key} peers={n_peers} adm={sig:?} cancel={cancel}"));
+        w.sample("run", json!({"burst": burst, "period_ms": period_ms, "block": block, "requests": n_req, "span_periods": span_periods, "cancel_waiters": cancel, "per_peer(requests:admitted)": sig}));
         w.finish()
     })
 }
